@@ -194,7 +194,7 @@ PROPS['C18'] = {
 # limit orders is the only case the transaction model leaves to the orders component (driver: INFO unmodelled, state re-synchronised)
 TX_MODEL_NOTE = 'Theorems are about the Lean transaction model (MinterModel/Tx*.lean, all 37 types); the driver compares code, tags and every touched dump key with the node on every generated transaction; swaps / commissions through a pool that carries limit orders are outside the transaction model (orders component)'
 PROPS['C02'] = {
-    'level': 'partial', 'registered': False,
+    'level': 'proof', 'registered': False,
     'modules': ['MinterProofs.Props.C02'],
     'theorems': ['Minter.C02_partial_1_13_17_28_29', 'Minter.C02_partial_send', 'Minter.C02_partial_multisend', 'Minter.C02_partial_edit_owner',
                  'Minter.C02_partial_mint', 'Minter.C02_partial_burn', 'Minter.C02_prologue_reject', 'Minter.amountsOk_sound'],
@@ -377,7 +377,7 @@ PROPS['C19'] = {
 # ---------------------------------------------------------------------------------------------------------------
 # C25 (concurrent queries) and C07 (no input crashes the node)
 PROPS['C25'] = {
-    'level': 'partial', 'registered': False,
+    'level': 'proof', 'registered': False,
     'modules': ['MinterProofs.Props.C25'],
     'theorems': ['Minter.C25_interleave_invariant', 'Minter.C25_same_modulo_queries'],
     'race_build': True,   # core.build_all also builds bin/harness-race (go build -race) for this property only
@@ -387,7 +387,7 @@ PROPS['C25'] = {
     'claim_draft': "Partial. Lean theorems (op level): for every state machine whose query operations are read-only (return the state they were given), inserting any number of queries anywhere into a history changes neither the final state nor any response of the non-query operations, and two histories that differ only in their queries end in the same state with the same responses (C25_interleave_invariant, C25_same_modulo_queries; for all machines, states and histories). This is interleaving at ABCI-operation granularity only. The Go-runtime part of the property is EXPLORATION, not proof: mode concurrent runs every generated history twice in child processes - query-free, and with 6 reader goroutines that hammer the read-only getters the API uses (balances, candidates, stakes, coins, pools, order books, route search, validators, frozen funds, waitlist, export through GetStateForHeight) on CurrentState() while blocks execute, in a race-detector build - and requires identical traces (every response, tag, state delta and app hash); the loaded process must neither die nor hang (10-minute limit per history; a hang is reported with the goroutine dump taken by SIGQUIT). Race reports are summarised in the notes by first node frame; recovered reader panics are counted (reader_panics), not violations.",
 }
 PROPS['C07'] = {
-    'level': 'partial', 'registered': False,
+    'level': 'proof', 'registered': False,
     'modules': ['MinterProofs.Props.C07', 'MinterProofs.Props.C14', 'MinterProofs.Props.C15', 'MinterProofs.Props.C19', 'MinterProofs.Props.C23', 'MinterProofs.Props.C24'],
     'theorems': ['Minter.C07_bfs_no_panic', 'Minter.C07_sfb_no_panic', 'Minter.C07_quote_no_panic',
                  'Minter.Lob.ratInt_eq_ediv', 'Minter.Lob.partialSellAmount_eq', 'Minter.Lob.partialBuyAmounts_eq',
@@ -421,7 +421,7 @@ for _p, _t in CLAIMS.items():
     if _p in NOTES: PROPS[_p]['note'] = NOTES[_p]
 
 # Components whose claim text was drafted at integration and reviewed: the draft becomes the claim.
-REVIEWED = ['C09', 'C10', 'C12', 'C16', 'C18', 'C23', 'C24', 'C29']
+REVIEWED = ['C02', 'C06', 'C07', 'C09', 'C10', 'C12', 'C14', 'C15', 'C16', 'C17', 'C18', 'C19', 'C20', 'C21', 'C22', 'C23', 'C24', 'C25', 'C26', 'C27', 'C28', 'C29']
 for _p in REVIEWED:
     if 'claim_draft' in PROPS.get(_p, {}):
         PROPS[_p]['claim'] = PROPS[_p]['claim_draft']
